@@ -36,7 +36,7 @@ CONSTANTS
   ArithOps, CmpOps, SetOps,  \* binary operators
   MatchSets,     \* label sets usable in on()/ignoring()
   GroupIncs,     \* label sets usable in group_left()/group_right(); {} switches grouping off
-  Fixes,         \* which repairs proposed under /verif/fixes the analysed tree contains: subset of {"F6", "OnForced", "EmptyEq"}
+  Fixes,         \* which repairs proposed under /verif/fixes the analysed tree contains: subset of {"F6", "OnForced", "EmptyEq", "StaticVal"}
   DBSeries,      \* bound on the number of series per metric in a database
   DBA, DBB, DBC, \* label values (besides absent) stored series may carry for a, b, c
   DBVals         \* sample values of stored series
@@ -149,6 +149,10 @@ calculateStaticReturn(ls, rs, op, isDead) ==
   ELSE IF IsArith(op) THEN [val |-> ArithV(op, ls.val, rs.val), dead |-> isDead, fresh |-> FALSE]
   ELSE [val |-> ls.val, dead |-> isDead, fresh |-> FALSE]
 
+\* (fix StaticVal: constructs that change the sample value drop KnownReturn, unary minus negates the number, absent()
+\*  forgets AlwaysReturns / KnownReturn / IsDead of its argument, a filtering comparison keeps the vector side's number)
+SV == "StaticVal" \in Fixes
+forgetValue(s) == IF SV THEN [s EXCEPT !.known = FALSE] ELSE s
 applyStatic(s, ls, rs, op, path) ==
   IF ls.always /\ rs.always /\ ls.known /\ rs.known
   THEN LET c == calculateStaticReturn(ls, rs, op, ls.dead) IN
@@ -178,19 +182,24 @@ parseAggregation(e, path) ==
 
 \* func walkAggregation(expr, n) []Source
 walkAggregation(e, path) ==
-  CASE e.op \in {"sum", "count"} -> SeqMap(parseAggregation(e, path), LAMBDA s : excludeLabel(s, {"n"}))
-    [] e.op = "cv"   -> SeqMap(parseAggregation(e, path), LAMBDA s :
-                          excludeLabel(guaranteeLabel(includeLabel(s, {"c"}), {"c"}), {"n"}))
+  CASE e.op = "sum"   -> SeqMap(parseAggregation(e, path), LAMBDA s : excludeLabel(s, {"n"}))
+    [] e.op = "count" -> SeqMap(parseAggregation(e, path), LAMBDA s : excludeLabel(forgetValue(s), {"n"}))
+    [] e.op = "cv"    -> SeqMap(parseAggregation(e, path), LAMBDA s :
+                          excludeLabel(guaranteeLabel(includeLabel(forgetValue(s), {"c"}), {"c"}), {"n"}))
     [] e.op = "topk" -> walkNode(e.e, path \o "e")
 
 \* func parsePromQLFunc(s, expr, n) Source   (the families the fragment uses)
 parsePromQLFunc(s, e) ==
-  CASE e.f \in {"abs", "rate", "lot", "lotsub"} -> guaranteeLabel([s EXCEPT !.ret = "vector"], s.sgua)
+  CASE e.f \in {"abs", "rate"} -> guaranteeLabel(forgetValue([s EXCEPT !.ret = "vector"]), s.sgua)
+    [] e.f \in {"lot", "lotsub"} -> guaranteeLabel([s EXCEPT !.ret = "vector"], s.sgua)
     [] e.f \in {"absent", "absentot"} ->
-         LET a == [s EXCEPT !.ret = "vector", !.fixed = TRUE, !.inc = {}, !.gua = {}]
+         LET a0 == [s EXCEPT !.ret = "vector", !.fixed = TRUE, !.inc = {}, !.gua = {}]
+             a == IF SV THEN [a0 EXCEPT !.always = FALSE, !.known = FALSE, !.dead = FALSE, !.dkind = "", !.dpath = "none"] ELSE a0
          IN guaranteeLabel(includeLabel(a, s.seq), s.seq)
     [] e.f \in {"lrep", "ljoin"} -> guaranteeLabel([s EXCEPT !.ret = "vector"], {e.dst})
-    [] e.f = "scalar" -> [s EXCEPT !.ret = "scalar", !.inc = {}, !.gua = {}, !.fixed = TRUE, !.always = TRUE]
+    [] e.f = "scalar" ->
+         LET a == [s EXCEPT !.ret = "scalar", !.inc = {}, !.gua = {}, !.fixed = TRUE, !.always = TRUE]
+         IN IF SV /\ s.dead THEN [a EXCEPT !.dead = FALSE, !.known = FALSE, !.dkind = "", !.dpath = "none"] ELSE a
 
 \* func parseCall(expr, n) []Source : vector / matrix arguments are walked, scalar and string ones are not
 parseCall(e, path) == SeqMap(walkNode(e.e, path \o "e"), LAMBDA es : parsePromQLFunc(es, e))
@@ -222,7 +231,8 @@ parseBinOps(e, path) ==
                rs == [rs0 EXCEPT !.cond = checkConditions(rs0, e.op)]
                side == IF ls.ret \in {"vector", "matrix"} THEN ls
                        ELSE IF rs.ret \in {"vector", "matrix"} THEN rs ELSE ls
-           IN applyStatic(side, ls, rs, e.op, path))
+               r == applyStatic(side, ls, rs, e.op, path)
+           IN IF SV /\ IsCmp(e.op) /\ ~e.bool THEN [r EXCEPT !.val = side.val] ELSE r)
     [] vv /\ ~IsSet(e.op) /\ e.grp = "none" ->    \* CardOneToOne
          SeqMap(lhs, LAMBDA s0 :
            LET s1 == IF on
@@ -271,7 +281,8 @@ walkNode(e, path) ==
          IN <<excludeLabel(guaranteeLabel(s, s.sgua), SelLabels(e, {"empty"}))>>
     [] e.k = "num" -> <<[Source0 EXCEPT !.ret = "scalar", !.known = TRUE, !.val = e.v, !.fixed = TRUE, !.always = TRUE]>>
     [] e.k \in {"time", "vec"} -> parseCallNoVectorArg(e, path)
-    [] e.k = "fn" /\ e.f = "neg" -> walkNode(e.e, path \o "e")     \* UnaryExpr
+    [] e.k = "fn" /\ e.f = "neg" ->                               \* UnaryExpr
+         SeqMap(walkNode(e.e, path \o "e"), LAMBDA s : IF SV /\ s.val # NaN THEN [s EXCEPT !.val = 0 - @] ELSE s)
     [] e.k = "fn"  -> parseCall(e, path)
     [] e.k = "agg" -> walkAggregation(e, path)
     [] e.k = "bin" -> parseBinOps(e, path)
